@@ -26,6 +26,11 @@ fn main() {
                 }
             }
         }
+        for d in [4usize, 6] {
+            if doc.part == format!("net-large-buffers:model:depth={}", d) {
+                std::process::exit(vlab::replay::replay_dfs(&doc, &move || c16::run_large(TKind::Model, d)));
+            }
+        }
         for (d, dv) in [(8usize, 1usize), (10, 2)] {
             if doc.part == format!("net-deep:model:depth={}:dev={}", d, dv) {
                 std::process::exit(vlab::replay::replay_dfs(&doc, &move || c16::run_mode(TKind::Model, false, d, true)));
@@ -44,6 +49,14 @@ fn main() {
         let mut cfg = DfsConfig::new(&part, dv);
         cfg.wall_cap = Duration::from_secs(if args.tier == Tier::Quick { 30 } else { 1800 });
         let st = dfs::explore(&cfg, &move || c16::run_mode(TKind::Model, false, d, true));
+        c.add_dfs(&part, &st);
+    }
+    {
+        let d = if args.tier == Tier::Quick { 4 } else { 6 };
+        let part = format!("net-large-buffers:model:depth={}", d);
+        let mut cfg = DfsConfig::new(&part, 1);
+        cfg.wall_cap = Duration::from_secs(if args.tier == Tier::Quick { 20 } else { 900 });
+        let st = dfs::explore(&cfg, &move || c16::run_large(TKind::Model, d));
         c.add_dfs(&part, &st);
     }
     for (t, raw, d) in parts(args.tier) {
